@@ -694,7 +694,10 @@ fn run_api_family(ctx: &Ctx, report: &mut Report) {
     if cases.is_empty() {
         return;
     }
-    let results: anyhow::Result<Vec<(State, usize, Vec<(&'static str, Option<Q>, String)>)>> = crate::sut::block_on(async {
+    // (its own runtime: the family of one worker may take longer than the 60 s hang detector of
+    // `sut::block_on` on a loaded machine)
+    let rt = super::live::runtime();
+    let results: anyhow::Result<Vec<(State, usize, Vec<(&'static str, Option<Q>, String)>)>> = rt.block_on(async {
         let node = super::apifam::api_node().await?;
         for a in [0u8, 1] {
             node.docs.api().author_import(crate::universe::author(a)).await?;
